@@ -1,0 +1,13 @@
+//go:build !verif
+
+// Package verifhook is a no-op unless built with -tags verif.
+package verifhook
+
+// Enabled reports whether the hooks are compiled in.
+const Enabled = false
+
+// Emit does nothing without the verif build tag.
+func Emit(ev string, kv ...any) {}
+
+// Fail never fails without the verif build tag.
+func Fail(point string, key string) error { return nil }
